@@ -535,9 +535,9 @@ func getTypeName(ident ir.LocalIdent) string {
 	if ident.IsUnnamed() {
 		return strconv.FormatInt(ident.LocalID, 10)
 	}
-	if x, err := strconv.ParseInt(ident.LocalName, 10, 64); err == nil {
+	if _, err := strconv.ParseInt(ident.LocalName, 10, 64); err == nil {
 		// Print LocalName with quotes if it is a number; e.g. %"42".
-		return fmt.Sprintf(`"%d"`, x)
+		return `"` + ident.LocalName + `"`
 	}
 	return ident.LocalName
 }
